@@ -2,7 +2,7 @@
 RULE = ('for every catalogue record (spec-derived frames, with dictionaries, skippable and multi-frame) and 12 compressor-made streams up to the length cap: every proper prefix not on a frame '
         'boundary through one-shot / usingDict, streaming (whole and byte-by-byte) and the buffer-less API; 3 kinds of trailing non-frame bytes; every single-bit flip of every stored '
         'checksum; content-size field rewritten to n+1, n-1, 0; every byte position of the block payload of single-frame records with checksum/size substituted (all 255 values for frames '
-        '<= 120 bytes, 7 values otherwise) - a decode that still succeeds must match the stored size and an independently computed XXH64; wrong pledged sizes over streaming call histories; '
+        '<= 120 bytes, 7 values otherwise) - a decode that still succeeds must match the stored size and an independently computed XXH64; wrong pledged sizes over streaming call histories; the same with 1-2 workers (1 KiB jobs; one job / four jobs; pledge n, n-1, n+1, n-700, n+2^32, 0; 3 call scripts) under every schedule with <= 1 preemption and <= 1 deviation: a wrong pledge is an error by the end of the frame, a right one gives a truthful header, the context stays usable; '
         'distinct = records; non-trivial = record with > 4 prefixes')
 
 
@@ -11,6 +11,8 @@ def run(vc, tier):
     cat = vc.catalogue('quick')
     r = c.run_vx_unit('c09-damage', ['harness/c09_trunc.c', 'ref/edu_decoder.c'], 'asan', ['--cat', cat, '--stride', 1, '--maxlen', 400 if tier == 'quick' else 1024, '--D', 0], share=0.7)
     c.run_vx_unit('c09-pledge', ['harness/c02_cstream.c', 'ref/edu_decoder.c'], 'asan', ['--depth', 3 if tier == 'quick' else 4, '--api', 0, '--ncfg', 2 if tier == 'quick' else 6, '--pledge', 1, '--judge', 4], share=0.9)
+    # pledged sizes on a multithreaded context (the frame header is written by the first job, the frame is closed by the last): real zstdmt + pool under the scheduler
+    c.run_vx_unit('c09-mt-pledge', ['harness/c11_mt.c', 'ref/edu_decoder.c'], 'sched-asan', ['--driver', 18, '--P', 1 if tier == 'quick' else 2, '--D', 1 if tier == 'quick' else 2, '--exec-timeout', 20000], engine_srcs=['engine/vsched.c'], share=0.9)
     for k in ('prefixes', 'checksum_bit_flips', 'payload_substitutions', 'payload_substitutions_accepted_and_judged', 'content_size_rewrites', 'trailing_garbage_cases'):
         c.extra[k] = r.stats.get(k, 0)
     c.extra['wrong_pledges_refused'] = sum(x.stats.get('wrong_pledges_refused', 0) for _, x, _ in c.units)
